@@ -271,3 +271,138 @@ def c02_search(tier='quick'):
                 shutil.rmtree(root, ignore_errors=True)
     c02_search.runs = runs
     return None
+
+
+C05_SCENARIOS = ['plain-set', 'plain-setexisting', 'plain-put', 'plain-putexisting', 'plain-gethit', 'plain-touchhit', 'plain-ensurehit', 'plain-ensure', 'plain-replace']
+CREATORS = ('rename', 'renameat', 'renameat2', 'link', 'linkat')
+PATH_CALLS = ('openat', 'utimensat', 'unlink', 'unlinkat', 'chmod', 'fchmodat', 'statx', 'newfstatat', 'rename', 'renameat', 'renameat2', 'link', 'linkat')
+
+
+def c05_search(tier='quick'):
+    """Bounded stand-in for C05: an adversary that deletes PUBLISHED cache files at arbitrary points is simulated by making
+    one system call that names the published entry fail with ENOENT (strace -P <entry> -e inject), every such call of
+    the operation in turn.  The operation must still succeed (a lookup reports a miss, a touch absence, a write
+    completes).  Returns a failing input (dict) or None."""
+    import collections, re, shutil, tempfile
+    exe = _build()
+    runs = 0
+    for scen in C05_SCENARIOS:
+        root = tempfile.mkdtemp(prefix='kvc05_')
+        entry = os.path.join(root, 'w', 'thekey')
+        tf = tempfile.NamedTemporaryFile(prefix='kvtrace', suffix='.log', delete=False)
+        tf.close()
+        try:
+            p = subprocess.run(['strace', '-f', '-qq', '-e', 'trace=' + ','.join(PATH_CALLS) , '-o', tf.name, exe, 'c02', 'run', root, scen],
+                               stdout=subprocess.PIPE, stderr=subprocess.PIPE, text=True, timeout=60)
+            # calls naming the entry, in order, with their rank among the calls of the same name that name the entry
+            rank, inside, state = collections.Counter(), [], 0
+            for ln in open(tf.name, errors='replace'):
+                m = re.match(r'^(?:\d+\s+)?(\w+)\(', ln)
+                if not m:
+                    continue
+                sc = m.group(1)
+                if '"/kv-marker/begin"' in ln:
+                    state = 1
+                    continue
+                if '"/kv-marker/end"' in ln:
+                    state = 2
+                    continue
+                if '"%s"' % entry in ln:
+                    rank[sc] += 1
+                    if state == 1:
+                        inside.append((sc, rank[sc]))
+            if state != 2:
+                raise RuntimeError('c05: no marker region in the trace of %s (strace unavailable?): %s' % (scen, p.stderr[-300:]))
+            if '"ran":true' not in p.stdout:
+                return {'scenario': scen, 'adversary': None, 'what': 'the operation fails even without an adversary: ' + p.stdout[-200:] + p.stderr[-200:]}
+        finally:
+            os.unlink(tf.name)
+            shutil.rmtree(root, ignore_errors=True)
+        # the adversary deletes the entry just before the i-th call that names it: that call and every later call that
+        # names the entry without creating it (open, stat, utimens, chmod, unlink) fail with ENOENT; rename / link onto
+        # the name still work (they re-create it).  filetime, for one, retries a failed open with another mode, so a
+        # single failing call is not what a deletion looks like.
+        victims = [(sc, nth) for sc, nth in inside if sc not in CREATORS]
+        for i in range(len(victims)):
+            runs += 1
+            first = {}
+            for sc, nth in victims[i:]:
+                first.setdefault(sc, nth)
+            root = tempfile.mkdtemp(prefix='kvc05_')
+            entry = os.path.join(root, 'w', 'thekey')
+            tf = tempfile.NamedTemporaryFile(prefix='kvtrace', suffix='.log', delete=False)
+            tf.close()
+            try:
+                cmd = ['strace', '-f', '-qq', '-P', entry, '-e', 'trace=' + ','.join(sorted(first))]
+                for sc, nth in sorted(first.items()):
+                    cmd += ['-e', 'inject=%s:error=ENOENT:when=%d+' % (sc, nth)]
+                q = subprocess.run(cmd + ['-o', tf.name, exe, 'c02', 'run', root, scen], stdout=subprocess.PIPE, stderr=subprocess.PIPE, text=True, timeout=60)
+                injected = 'INJECTED' in open(tf.name, errors='replace').read()
+                if injected and '"ran":true' not in q.stdout:
+                    sc, nth = victims[i]
+                    return {'scenario': scen, 'adversary': 'the published entry is deleted just before %s #%d that names it (that call and the later ones see ENOENT)' % (sc, nth),
+                            'what': 'the operation fails or panics merely because a published cache file was deleted concurrently: ' + (q.stdout.strip()[-100:] or q.stderr.strip()[-200:])}
+            finally:
+                os.unlink(tf.name)
+                shutil.rmtree(root, ignore_errors=True)
+    c05_search.runs = runs
+    return None
+
+
+def c05_maint_search(tier='quick'):
+    """C05 / C06, maintenance: a file that maintenance has listed vanishes before it is examined (ENOENT injected into one
+    stat of a directory entry, every one in turn; strace -P <cache directory>).  The write whose maintenance this is
+    must still succeed."""
+    import collections, re, shutil, tempfile
+    exe = _build()
+    runs = 0
+    for scen in ['plain-set-maint', 'plain-put-maint', 'plain-prune']:
+        root = tempfile.mkdtemp(prefix='kvc05m_')
+        wdir = os.path.join(root, 'w')
+        tf = tempfile.NamedTemporaryFile(prefix='kvtrace', suffix='.log', delete=False)
+        tf.close()
+        try:
+            p = subprocess.run(['strace', '-f', '-qq', '-y', '-e', 'trace=statx,newfstatat,fstatat64', '-o', tf.name, exe, 'c02', 'run', root, scen],
+                               stdout=subprocess.PIPE, stderr=subprocess.PIPE, text=True, timeout=60)
+            rank, inside, state = collections.Counter(), [], 0
+            for ln in open(tf.name, errors='replace'):
+                m = re.match(r'^(?:\d+\s+)?(\w+)\((.*)$', ln)
+                if not m:
+                    continue
+                sc, rest = m.group(1), m.group(2)
+                if '"/kv-marker/begin"' in ln:
+                    state = 1
+                    continue
+                if '"/kv-marker/end"' in ln:
+                    state = 2
+                    continue
+                # a stat relative to the open cache directory: statx(3</root/w>, "name", ...)
+                if re.match(r'\d+<%s>, "[^/"]+"' % re.escape(wdir), rest):
+                    rank[sc] += 1
+                    if state == 1:
+                        inside.append((sc, rank[sc]))
+            if state != 2:
+                raise RuntimeError('c05m: no marker region in the trace of %s (strace unavailable?): %s' % (scen, p.stderr[-300:]))
+            if '"ran":true' not in p.stdout:
+                return {'scenario': scen, 'adversary': None, 'what': 'the operation fails even without an adversary: ' + p.stdout[-200:] + p.stderr[-200:]}
+        finally:
+            os.unlink(tf.name)
+            shutil.rmtree(root, ignore_errors=True)
+        for sc, nth in inside:
+            runs += 1
+            root = tempfile.mkdtemp(prefix='kvc05m_')
+            wdir = os.path.join(root, 'w')
+            tf = tempfile.NamedTemporaryFile(prefix='kvtrace', suffix='.log', delete=False)
+            tf.close()
+            try:
+                q = subprocess.run(['strace', '-f', '-qq', '-P', wdir, '-e', 'trace=' + sc, '-e', 'inject=%s:error=ENOENT:when=%d' % (sc, nth), '-o', tf.name,
+                                    exe, 'c02', 'run', root, scen], stdout=subprocess.PIPE, stderr=subprocess.PIPE, text=True, timeout=60)
+                injected = 'INJECTED' in open(tf.name, errors='replace').read()
+                if injected and '"ran":true' not in q.stdout:
+                    return {'scenario': scen, 'adversary': 'a listed file vanishes before maintenance examines it (%s #%d on an entry of the cache directory sees ENOENT)' % (sc, nth),
+                            'what': 'the write fails or panics merely because a cache file was deleted concurrently: ' + (q.stdout.strip()[-100:] or q.stderr.strip()[-200:])}
+            finally:
+                os.unlink(tf.name)
+                shutil.rmtree(root, ignore_errors=True)
+    c05_maint_search.runs = runs
+    return None
